@@ -149,6 +149,8 @@ PROPS['C13'] = {
     'bounds': {'quick': 'K=3 (4 for mod-2) pending, flat depth 5, nested budget 1 depth 4', 'thorough': 'flat to fixpoint or depth 30, nested budget 2 depth 5'},
 }
 PROPS['C08']['parts'] += split('harness/queue.cpp', 'C08/', 8, 2, ['g17'])
+PROPS['C08']['parts'] += [{'src': 'harness/faults.cpp', 'prefix': 'C08/', 'variants': ['g17'], 'quick_variants': ['g17O0'], 'defs': ['VERIF_PREFIX="C08/under-faults"', 'VERIF_SUB=%d' % i], 'only_sigs': 'leak|ledger|fatal'} for i in (0, 2, 4)]
+PROPS['C08']['rule'] += '; plus the fault-enumeration runs of C09 (CallbackList, EventQueue, heterogeneous and remover subjects) with only the leak/ledger clauses counted'
 PROPS['C05']['parts'] += [{'src': 'harness/dispatch.cpp', 'prefix': 'C05/', 'variants': ['g17O0'], 'defs': ['VERIF_QUEUE', 'VERIF_SUB=2', 'VERIF_FULL=0'], 'tier': 'quick'}]
 PROPS['C05']['parts'] += [{'src': 'harness/dispatch.cpp', 'prefix': 'C05/', 'variants': ['g17', 'c17'], 'defs': ['VERIF_QUEUE', 'VERIF_SUB=%d' % i, 'VERIF_FULL=1'], 'tier': 'thorough'} for i in range(5)]
 PROPS['C05']['rule'] += '; plus the C04 type-matrix cells driven through EventQueue (enqueue in every value category, then process) for key types int / enum / std::string / user structs, both argument-passing forms and a getEvent policy'
